@@ -192,11 +192,11 @@ CHECKS = {
              "ETag and body GET serves, everything else is 404/no data, an emitted href reads back as its path, the "
              "mount point is a boundary. Tied to /repo by replaying every multiget of generated histories on the "
              "model, by a by-construction oracle against GET, and by re-asking hrefs alone; both front ends. "
-             "webdav.href_to_path is TRANSLATED from /repo on every run and proved equal to the model's hrefToPathChars (mount-point test on whole segments).",
+             "webdav.href_to_path and the two loops of webdav._get_resources_by_hrefs (dict.fromkeys, setdefault/append, backend.get_resources) are TRANSLATED from /repo on every run and proved equal to the model's hrefToPathChars / resourcesByHrefs, so the each-href-once and independence theorems hold of the generated code.",
         note="absolute URLs on another host are answered like their path (the code does not know its host name) and "
              "are not judged; XML transport normalises CRLF in the data, compared modulo that; urlsplit's authority "
              "handling is in the model only for ASCII authorities without brackets.",
-        tech="Python->Lean translation (href_to_path) + Lean 4 invariant proof over the request loop + refinement to a per-href spec + differential correspondence",
+        tech="Python->Lean translation (href_to_path, _get_resources_by_hrefs) + Lean 4 invariant proof over the request loop + refinement to a per-href spec + differential correspondence",
         ref="5/C17"),
     "C18": dict(
         text="Proved in Lean: create_href with a base decodes to base/ + href for every clean directory base and every "
